@@ -105,7 +105,20 @@ def run(ctx):
 
     # ---------------- engine `rule.weights`: float rule vs exact closed form -------------------------
     ratios = [2.0, 1.6, 4.0, 3.0, 1.25, 10.0, 1.1, 7.5]
+    # the rule cache as it is when the library has just been imported (a cache that is pre-populated at import time is part of
+    # what a user gets); every case below starts from this state, not from an empty cache
+    initial_cache = {k: np.array(v, copy=True) for k, v in fdm.FD_RULES.items()}
+    if initial_cache:
+        ctx.notes.append('FD_RULES holds %d entries at import time: %s' % (len(initial_cache), sorted(map(str, initial_cache))[:8]))
     cases = []
+    # the default step ratios (2.0 for n = 1, 1.6 otherwise) and every other ratio that is pre-populated: all small configurations
+    pre = sorted({float(k[0]) for k in initial_cache if isinstance(k, tuple) and k and isinstance(k[0], (int, float))} | {2.0, 1.6})
+    for m in METHODS:
+        for n in range(1, 7):
+            for o in range(1, 7):
+                for rho in pre:
+                    if rho > 1:
+                        cases.append((m, n, o, make_exact(rho)))
     for m in METHODS:
         for n in range(1, 11):
             for o in range(1, 11):
@@ -120,6 +133,7 @@ def run(ctx):
         ctx.count('rule.weights', m)
         wq = [s2q(x) for x in line.split()]
         fdm.FD_RULES.clear()
+        fdm.FD_RULES.update({k: np.array(v, copy=True) for k, v in initial_cache.items()})
         r = LogRule(n=n, method=m, order=o)
         w = r.rule(rho)
         weights[(m, n, o, rho)] = w
@@ -193,6 +207,7 @@ def run(ctx):
     ctx.assumptions.append('numpy.linalg.pinv is modelled by the exact inverse of the moment matrix; configurations with '
                            'cond*eps > 1e-3 are outside the property (numerically singular) and are counted, not compared')
     fdm.FD_RULES.clear()
+    fdm.FD_RULES.update(initial_cache)
 
 
 def replay(ctx, path):
